@@ -173,7 +173,11 @@ def read_fragment_smiles(smiles_str,
     atomnames = {node[0]: node[1]['element']+str(node[0]) for node in mol_graph.nodes(data=True)}
     nx.set_node_attributes(mol_graph, atomnames, 'atomname')
 
-    # we have just a single atom so no need for any annotations
+    # we need to split countable node keys and the associated value
+    ez_isomer_class = {idx: val[-1] for idx, val in ez_isomers.items()}
+    nx.set_node_attributes(mol_graph, ez_isomer_class, 'ez_isomer_class')
+
+    # we have just a single atom so no need for any further annotations
     if len(mol_graph) == 1:
         # we set the hcount for all non-hydrogen elements
         if mol_graph.nodes[0]['element'] != 'H':
@@ -200,9 +204,5 @@ def read_fragment_smiles(smiles_str,
     nx.set_node_attributes(mol_graph,
                            dict(zip(hatoms_to_keep, len(hatoms_to_keep)*'H')),
                            'element')
-
-    # we need to split countable node keys and the associated value
-    ez_isomer_class = {idx: val[-1] for idx, val in ez_isomers.items()}
-    nx.set_node_attributes(mol_graph, ez_isomer_class, 'ez_isomer_class')
 
     return mol_graph
